@@ -12,6 +12,7 @@ import MqttVerif.Model.Filter
 import MqttVerif.Model.Subs
 import MqttVerif.Model.Heap
 import MqttVerif.Model.Errors
+import MqttVerif.Model.Retry
 
 open Mqtt
 
@@ -218,6 +219,103 @@ def targetId (s : String) : Option Nat :=
   else if s = "eof" then some eofId
   else none
 
+namespace RetryIO
+open Mqtt.Retry
+
+def parseFault (s : String) : Option Fault :=
+  match s with
+  | "ok" => some .ok | "wf" => some .writeFail | "lr" => some .lostReq | "la" => some .lostAck | "si" => some .silent
+  | _ => none
+
+def parseCfg (s : String) : Option Cfg :=
+  match s.toList with
+  | ['t', a, 'a', b, 'c', c] => some { respTimeout := a = '1', always := b = '1', connectTimeout := c = '1' }
+  | _ => none
+
+def parseInb (s : String) : Option (Nat × Nat) :=
+  match s.splitOn "." with
+  | [m, q] => do pure (← m.toNat?, ← q.toNat?)
+  | _ => none
+
+def parseEv (s : String) : Option Ev :=
+  match s.splitOn ":" with
+  | ["start"] => some .start
+  | ["pub", m, q] => do pure (.app (.pub (← m.toNat?) (← q.toNat?)))
+  | ["sub", items] => do pure (.app (.sub (← (items.splitOn ",").mapM Oracle.parseSubItem)))
+  | ["unsub", items] => do pure (.app (.unsub (← (items.splitOn ",").mapM Oracle.parseDesc)))
+  | ["dial+", i] => do pure (.dialOk (← i.toNat?))
+  | ["dial-"] => some .dialFail
+  | ["ack+", sp] => do pure (.connackOk (← Oracle.b01 sp) [])
+  | ["ack+", sp, inb] => do pure (.connackOk (← Oracle.b01 sp) (← (inb.splitOn ",").mapM parseInb))
+  | ["ack-"] => some .connackRefused
+  | ["ack0"] => some .connackNever
+  | ["close"] => some .peerClose
+  | ["in", m, q] => do pure (.inbound (← m.toNat?) (← q.toNat?))
+  | ["handle", h] => do pure (.handle (← h.toNat?))
+  | ["disc"] => some .disconnect
+  | _ => none
+
+def showSubs (subs : List Subscription) : String :=
+  String.intercalate ";" (subs.map (fun e => s!"{toHex e.topic}.{e.qos}"))
+
+def showWire : Wire → String
+  | .sent .ok => "" | .sent .writeFail => "!wf" | .sent .lostReq => "!lr" | .sent .lostAck => "!la"
+  | .sent .silent => "!si" | .dead => "!dead"
+
+def showPkt : Pkt → String
+  | .connect => "C"
+  | .publish m q i d => s!"P{m}q{q}i{i}d{if d then 1 else 0}"
+  | .pubrel i m => s!"R{m}i{i}"
+  | .subscribe i subs => s!"S{i}:{showSubs subs}"
+  | .unsubscribe i ts => s!"U{i}:{String.intercalate ";" (ts.map toHex)}"
+  | .puback i => s!"A{i}"
+  | .disconnect => "X"
+
+def showReq : Req → String
+  | .pub m q => s!"p{m}q{q}"
+  | .sub subs => s!"s{showSubs subs}"
+  | .unsub ts => s!"u{String.intercalate ";" (ts.map toHex)}"
+
+def showPhase : Phase → String
+  | .idle => "idle" | .dialGate => "dial" | .connackGate k => s!"connack{k}" | .up k => s!"up{k}" | .exited => "exited"
+
+def joinOr (l : List String) (sep : String) : String := if l.isEmpty then "-" else String.intercalate sep l
+
+def sortStrings (l : List String) : List String := (l.toArray.qsort (· < ·)).toList
+
+def showWorld (w : World) : String :=
+  let conns := (List.range w.conns.length).map (fun k =>
+    let c := getConn w k
+    s!"c{k}[" ++ String.intercalate "," (c.pkts.map (fun pw => showPkt pw.1 ++ showWire pw.2)) ++ "]")
+  let bs := sortStrings (w.broker.subs.map (fun e => s!"{toHex e.topic}.{e.qos}"))
+  let oe := String.ofList (w.onErrors.map (fun e => match e with | .retryable => 'r' | .timeout => 't'))
+  let hd := w.handled.map (fun (k, h, m) => s!"{k}:{h}:{m}")
+  let ret := match w.connectReturned with | none => "-" | some b => if b then "1" else "0"
+  String.intercalate " " conns ++
+    s!" dl={joinOr (w.broker.delivered.map toString) ","} bs={joinOr bs ","} ak={joinOr (w.broker.acked.map showReq) ","}" ++
+    s!" oe={if oe.isEmpty then "-" else oe} hd={joinOr hd ","} tt={w.totalTasks} tr={w.totalRetries} qr={if w.stuck then 0 else w.retryQ.length} qt={w.taskQ.length}" ++
+    s!" dials={w.dials} waits={joinOr (w.waits.map toString) ","} phase={showPhase w.phase} ret={ret} rej={w.rejected} stuck={if w.stuck then 1 else 0}"
+
+def planOf (w : World) : String :=
+  let writes := (w.conns.map (fun c => c.pkts.length)).foldl (· + ·) 0
+  let closed := (w.conns.filter (fun c => !c.alive)).length
+  s!"d{w.dials},w{writes},t{w.totalTasks},e{w.onErrors.length},r{w.totalRetries},h{w.handled.length},x{closed},s{if w.stuck then 1 else 0}"
+
+def run (toks : List String) : Option String :=
+  match toks with
+  | cfg :: method :: faults :: evs => do
+    let cfg ← parseCfg cfg
+    let method ← (if method = "P" then some Method.onPublish else if method = "R" then some Method.onPubrel else none)
+    let faults ← (if faults = "-" then some [] else (faults.splitOn ",").mapM parseFault)
+    let evs ← evs.mapM parseEv
+    let s : Script := { cfg, method, faults, evs }
+    let ws := execTrace s
+    let final := ws.getLastD (init s)
+    pure (showWorld final ++ " || " ++ String.intercalate ";" (ws.map planOf))
+  | _ => none
+
+end RetryIO
+
 def handle (toks : List String) : Option String :=
   match toks with
   | ["rl", n] => do
@@ -289,6 +387,18 @@ def handle (toks : List String) : Option String :=
     let (h2, p) := h1.allocMsg { topic := ← parseDesc topic, id := ← id.toNat?, qos := ← qos.toNat?, retain := ← b01 retain,
                                  dup := ← b01 dup, payload := b, plen := pl.length }
     let fs := scripts.map scriptFn
+    if _mode = "asyncd" then
+      match scripts with
+      | [callerS, handlerS] =>
+        let (hf, views) := (List.range (← rounds.toNat?)).foldl (fun (acc : Heap × List String) _ =>
+          let (h, vs) := acc
+          let (h1, c) := asyncServe h p            -- the clone is taken before Serve returns
+          let v := showView (h1.view c)
+          let h2 := scriptFn callerS h1 p          -- the caller reuses its message
+          let h3 := scriptFn handlerS h2 c         -- the deferred handler body
+          (h3, vs ++ [v])) (h2, [])
+        return (String.intercalate " " views ++ " | caller=" ++ showView (hf.view p))
+      | _ => none
     let (h3, views) := c20Rounds (← rounds.toNat?) h2 fs p []
     pure (String.intercalate " " views ++ " | caller=" ++ showView (h3.view p))
   | "err" :: path :: targets => do
@@ -300,6 +410,7 @@ def handle (toks : List String) : Option String :=
       let bits := String.ofList (ts.map (fun t => if stdIs x t then '1' else '0'))
       let top := match x with | .leaf i => (if i = eofId then "eof" else "leaf") | _ => "node"
       pure s!"top={top} is={bits} retry={showBool (hasRetry x)} rto={showBool (stdAsRto x).isSome}"
+  | "retry" :: rest => RetryIO.run rest
   | ["rp", hex] => do
     let bs ← parseDesc hex
     let r := readPacket bs
